@@ -18,6 +18,7 @@ CONSTANTS
   UseReopen = TRUE
   UseEpochs = TRUE
   OccSet = {FALSE}
+  MinCleanSegs = 1
   UseReaders = FALSE
 INVARIANTS CTypeOK C01_Ordered SegsConsistent NoEmptyInnerSegment
 PROPERTIES StepsOK
